@@ -1,5 +1,11 @@
 import VOPyVerif.Model.Pareto
-/-! Helper lemmas for C13: the loop invariant of the split-form Pareto loop. -/
+/-! Helper lemmas for C13: the loop invariant of the split-form Pareto loop, the Prop-level
+specification `IsParetoIdx` and its equivalence with the decidable relation `specOk`, and the
+characterisation of the naive routine.
+
+All preorder hypotheses are taken *on the elements of the input list only* (`…_on` lemmas), so that
+the theorems can be instantiated at `VOPy.dominates W`, which is transitive only among vectors of
+equal length. -/
 namespace VOPy.Pareto
 
 variable {α : Type}
@@ -9,10 +15,14 @@ structure PInv (dom : α → α → Bool) (L pre post : List (Nat × α)) : Prop
   anti : ∀ e ∈ pre, ∀ f ∈ pre ++ post, e ≠ f → dom e.2 f.2 = false
   cover : ∀ x ∈ L, ∃ f ∈ pre ++ post, dom f.2 x.2 = true
 
-theorem inv_step (dom : α → α → Bool)
-    (htrans : ∀ a b c, dom a b = true → dom b c = true → dom a c = true)
-    (L pre post : List (Nat × α)) (v : Nat × α) (h : PInv dom L pre (v :: post)) :
+/-- transitivity among the (second components of the) members of `L` -/
+def TransOn (dom : α → α → Bool) (L : List (Nat × α)) : Prop :=
+  ∀ a ∈ L, ∀ b ∈ L, ∀ c ∈ L, dom a.2 b.2 = true → dom b.2 c.2 = true → dom a.2 c.2 = true
+
+theorem inv_step_on (dom : α → α → Bool) (L pre post : List (Nat × α)) (v : Nat × α)
+    (htrans : TransOn dom L) (h : PInv dom L pre (v :: post)) :
     PInv dom L (rm dom v pre ++ [v]) (rm dom v post) := by
+  have hvL : v ∈ L := h.sub.subset (by simp)
   unfold rm
   refine ⟨?_, ?_, ?_⟩
   · have h1 : ((pre.filter (fun e => !dom v.2 e.2) ++ [v]) ++
@@ -41,8 +51,9 @@ theorem inv_step (dom : α → α → Bool)
       · simpa using hf
   · intro x hx
     obtain ⟨f, hf, hfx⟩ := h.cover x hx
+    have hfL : f ∈ L := h.sub.subset hf
     by_cases hvf : dom v.2 f.2 = true
-    · exact ⟨v, by simp, htrans _ _ _ hvf hfx⟩
+    · exact ⟨v, by simp, htrans v hvL f hfL x hx hvf hfx⟩
     · refine ⟨f, ?_, hfx⟩
       simp only [List.mem_append, List.mem_cons] at hf
       simp only [List.mem_append, List.mem_filter, List.mem_singleton]
@@ -51,17 +62,56 @@ theorem inv_step (dom : α → α → Bool)
       · exact Or.inl (Or.inr hf)
       · exact Or.inr ⟨hf, by simpa using hvf⟩
 
-theorem loop_inv (dom : α → α → Bool)
-    (htrans : ∀ a b c, dom a b = true → dom b c = true → dom a c = true)
-    (L : List (Nat × α)) : ∀ (pre post : List (Nat × α)), PInv dom L pre post →
-    PInv dom L (loop dom pre post) [] := by
+theorem loop_inv_on (dom : α → α → Bool) (L : List (Nat × α)) (htrans : TransOn dom L) :
+    ∀ (pre post : List (Nat × α)), PInv dom L pre post → PInv dom L (loop dom pre post) [] := by
   intro pre post
   induction pre, post using loop.induct dom with
   | case1 pre => intro h; simpa [loop] using h
   | case2 pre v post ih =>
     intro h
     rw [loop]
-    exact ih (inv_step dom htrans L pre post v h)
+    exact ih (inv_step_on dom L pre post v htrans h)
+
+/-- The loop result is always a sublist of what it was given (no hypothesis on `dom`). -/
+theorem loop_sublist (dom : α → α → Bool) :
+    ∀ (pre post : List (Nat × α)), (loop dom pre post).Sublist (pre ++ post) := by
+  intro pre post
+  induction pre, post using loop.induct dom with
+  | case1 pre => simp [loop]
+  | case2 pre v post ih =>
+    rw [loop]
+    refine ih.trans ?_
+    unfold rm
+    rw [List.append_assoc]
+    apply List.Sublist.append List.filter_sublist
+    simp only [List.singleton_append]
+    exact List.Sublist.cons_cons _ List.filter_sublist
+
+/-- Specification of the loop result, for a relation that is reflexive and transitive on the
+members of `L`. -/
+theorem loop_spec_on (dom : α → α → Bool) (L : List (Nat × α))
+    (hrefl : ∀ a ∈ L, dom a.2 a.2 = true) (htrans : TransOn dom L) :
+    let R := loop dom [] L
+    R.Sublist L ∧
+    (∀ e ∈ R, ∀ f ∈ R, e ≠ f → dom e.2 f.2 = false) ∧
+    (∀ x ∈ L, ∃ f ∈ R, dom f.2 x.2 = true) ∧
+    (∀ e ∈ R, ∀ x ∈ L, dom x.2 e.2 = true → dom e.2 x.2 = true) := by
+  have h0 : PInv dom L [] L :=
+    ⟨by simp, by simp, fun x hx => ⟨x, by simpa using hx, hrefl x hx⟩⟩
+  have h := loop_inv_on dom L htrans [] L h0
+  have hsub : (loop dom [] L).Sublist L := by simpa using h.sub
+  refine ⟨hsub, ?_, ?_, ?_⟩
+  · intro e he f hf hne; exact h.anti e he f (by simpa using hf) hne
+  · intro x hx; obtain ⟨f, hf, hfx⟩ := h.cover x hx; exact ⟨f, by simpa using hf, hfx⟩
+  · intro e he x hx hxe
+    obtain ⟨f, hf, hfx⟩ := h.cover x hx
+    have hf' : f ∈ loop dom [] L := by simpa using hf
+    have hfe : dom f.2 e.2 = true :=
+      htrans f (hsub.subset hf') x hx e (hsub.subset he) hfx hxe
+    by_cases hef : f = e
+    · subst hef; exact hfx
+    · have := h.anti f hf' e (by simpa using he) hef
+      rw [this] at hfe; exact absurd hfe (by simp)
 
 /-- Specification of the loop result, for a reflexive transitive relation. -/
 theorem loop_spec (dom : α → α → Bool)
@@ -72,19 +122,292 @@ theorem loop_spec (dom : α → α → Bool)
     R.Sublist L ∧
     (∀ e ∈ R, ∀ f ∈ R, e ≠ f → dom e.2 f.2 = false) ∧
     (∀ x ∈ L, ∃ f ∈ R, dom f.2 x.2 = true) ∧
-    (∀ e ∈ R, ∀ x ∈ L, dom x.2 e.2 = true → dom e.2 x.2 = true) := by
-  have h0 : PInv dom L [] L := ⟨by simp, by simp, fun x hx => ⟨x, by simpa using hx, hrefl _⟩⟩
-  have h := loop_inv dom htrans L [] L h0
-  refine ⟨by simpa using h.sub, ?_, ?_, ?_⟩
-  · intro e he f hf hne; exact h.anti e he f (by simpa using hf) hne
-  · intro x hx; obtain ⟨f, hf, hfx⟩ := h.cover x hx; exact ⟨f, by simpa using hf, hfx⟩
+    (∀ e ∈ R, ∀ x ∈ L, dom x.2 e.2 = true → dom e.2 x.2 = true) :=
+  loop_spec_on dom L (fun a _ => hrefl a.2) (fun a _ b _ c _ => htrans a.2 b.2 c.2)
+
+/-! ### the indexed list -/
+
+theorem mem_indexed {xs : List α} {p : Nat × α} : p ∈ indexed xs ↔ xs[p.1]? = some p.2 := by
+  simp only [indexed, List.mem_map, Prod.exists, List.mem_zipIdx_iff_getElem?]
+  constructor
+  · rintro ⟨a, i, h, rfl⟩; exact h
+  · intro h; exact ⟨p.2, p.1, h, rfl⟩
+
+theorem indexed_map_fst (xs : List α) : (indexed xs).map (·.1) = List.range xs.length := by
+  have h : (indexed xs).map (·.1) = (xs.zipIdx).map Prod.snd := by
+    simp only [indexed, List.map_map]
+    rfl
+  rw [h, List.zipIdx_map_snd, List.range'_eq_map_range]
+  simp
+
+theorem snd_mem_of_mem_indexed {xs : List α} {p : Nat × α} (h : p ∈ indexed xs) : p.2 ∈ xs :=
+  List.mem_of_getElem? (mem_indexed.mp h)
+
+theorem exists_indexed_of_mem {xs : List α} {x : α} (hx : x ∈ xs) : ∃ p ∈ indexed xs, p.2 = x := by
+  obtain ⟨i, hi, rfl⟩ := List.getElem_of_mem hx
+  exact ⟨(i, xs[i]), mem_indexed.mpr (by simp [hi]), rfl⟩
+
+/-- a pair of the indexed list is determined by its index -/
+theorem indexed_inj {xs : List α} {p q : Nat × α} (hp : p ∈ indexed xs) (hq : q ∈ indexed xs)
+    (h : p.1 = q.1) : p = q := by
+  have h1 := mem_indexed.mp hp
+  have h2 := mem_indexed.mp hq
+  rw [h] at h1
+  rw [h1] at h2
+  exact Prod.ext h (Option.some.inj h2)
+
+/-! ### preorders on a list -/
+
+/-- `dom` is reflexive and transitive among the members of `xs` -/
+structure PreorderOn (dom : α → α → Bool) (xs : List α) : Prop where
+  refl : ∀ a ∈ xs, dom a a = true
+  trans : ∀ a ∈ xs, ∀ b ∈ xs, ∀ c ∈ xs, dom a b = true → dom b c = true → dom a c = true
+
+theorem PreorderOn.of_global {dom : α → α → Bool} (hrefl : ∀ a, dom a a = true)
+    (htrans : ∀ a b c, dom a b = true → dom b c = true → dom a c = true) (xs : List α) :
+    PreorderOn dom xs :=
+  ⟨fun a _ => hrefl a, fun a _ b _ c _ => htrans a b c⟩
+
+/-- antisymmetry among the members of `xs` (pointed cone) -/
+def AntisymmOn (dom : α → α → Bool) (xs : List α) : Prop :=
+  ∀ a ∈ xs, ∀ b ∈ xs, dom a b = true → dom b a = true → a = b
+
+/-- the four facts about the kept (index, element) pairs of the fast routine -/
+theorem fast_pairs_on (dom : α → α → Bool) (xs : List α) (h : PreorderOn dom xs) :
+    let R := loop dom [] (indexed xs)
+    R.Sublist (indexed xs) ∧
+    (∀ e ∈ R, ∀ f ∈ R, e ≠ f → dom e.2 f.2 = false) ∧
+    (∀ x ∈ xs, ∃ f ∈ R, dom f.2 x = true) ∧
+    (∀ e ∈ R, ∀ x ∈ xs, dom x e.2 = true → dom e.2 x = true) := by
+  have hs := loop_spec_on dom (indexed xs)
+    (fun a ha => h.refl a.2 (snd_mem_of_mem_indexed ha))
+    (fun a ha b hb c hc => h.trans a.2 (snd_mem_of_mem_indexed ha) b.2 (snd_mem_of_mem_indexed hb)
+      c.2 (snd_mem_of_mem_indexed hc))
+  refine ⟨hs.1, hs.2.1, ?_, ?_⟩
+  · intro x hx
+    obtain ⟨p, hp, rfl⟩ := exists_indexed_of_mem hx
+    exact hs.2.2.1 p hp
   · intro e he x hx hxe
-    obtain ⟨f, hf, hfx⟩ := h.cover x hx
-    have hf' : f ∈ loop dom [] L := by simpa using hf
-    have hfe : dom f.2 e.2 = true := htrans _ _ _ hfx hxe
-    by_cases hef : f = e
-    · subst hef; exact hfx
-    · have := h.anti f hf' e (by simpa using he) hef
-      rw [this] at hfe; exact absurd hfe (by simp)
+    obtain ⟨p, hp, rfl⟩ := exists_indexed_of_mem hx
+    exact hs.2.2.2 e he p hp hxe
+
+/-! ### Prop-level specification of an index list and the decidable relation `specOk` -/
+
+/-- The Pareto specification of a list of indices into `xs`: valid, strictly increasing (hence
+distinct); kept elements pairwise unrelated; every input dominated by a kept element; no kept
+element strictly dominated by an input. -/
+structure IsParetoIdx (dom : α → α → Bool) (xs : List α) (idx : List Nat) : Prop where
+  valid : ∀ i ∈ idx, i < xs.length
+  incr : idx.Pairwise (· < ·)
+  anti : ∀ i ∈ idx, ∀ j ∈ idx, i ≠ j → ∀ a b, xs[i]? = some a → xs[j]? = some b → dom a b = false
+  cover : ∀ x ∈ xs, ∃ i ∈ idx, ∃ a, xs[i]? = some a ∧ dom a x = true
+  maximal : ∀ i ∈ idx, ∀ a, xs[i]? = some a → ∀ x ∈ xs, dom x a = true → dom a x = true
+
+theorem zipTail_all_iff (l : List Nat) :
+    (l.zip l.tail).all (fun (a, b) => decide (a < b)) = true ↔ l.Pairwise (· < ·) := by
+  induction l with
+  | nil => simp
+  | cons a t ih =>
+    cases t with
+    | nil => simp
+    | cons b t =>
+      simp only [List.tail_cons, List.zip_cons_cons, List.all_cons, Bool.and_eq_true,
+        decide_eq_true_eq] at ih ⊢
+      rw [List.pairwise_cons (a := a), ih]
+      constructor
+      · rintro ⟨hab, hp⟩
+        refine ⟨?_, hp⟩
+        intro x hx
+        rcases List.mem_cons.mp hx with rfl | hx
+        · exact hab
+        · exact Nat.lt_trans hab ((List.pairwise_cons.mp hp).1 x hx)
+      · rintro ⟨hall, hp⟩
+        exact ⟨hall b (by simp), hp⟩
+
+theorem specOk_iff (dom : α → α → Bool) (xs : List α) (idx : List Nat) :
+    specOk dom xs idx = true ↔ IsParetoIdx dom xs idx := by
+  unfold specOk
+  simp only [Bool.and_eq_true, zipTail_all_iff]
+  constructor
+  · rintro ⟨⟨⟨⟨h1, h2⟩, h3⟩, h4⟩, h5⟩
+    simp only [List.all_eq_true, List.any_eq_true, decide_eq_true_eq, Bool.or_eq_true,
+      beq_iff_eq] at h1 h3 h4 h5
+    refine ⟨h1, h2, ?_, ?_, ?_⟩
+    · intro i hi j hj hne a b ha hb
+      have := h3 i hi j hj
+      rw [ha, hb] at this
+      rcases this with h | h
+      · exact absurd h hne
+      · simpa using h
+    · intro x hx
+      obtain ⟨i, hi, h⟩ := h4 x hx
+      cases ha : xs[i]? with
+      | none => rw [ha] at h; simp at h
+      | some a => rw [ha] at h; exact ⟨i, hi, a, ha, h⟩
+    · intro i hi a ha x hx hxa
+      have := h5 i hi x hx
+      rw [ha] at this
+      simp only [Bool.or_eq_true, Bool.not_eq_true'] at this
+      rcases this with h | h
+      · rw [h] at hxa; exact absurd hxa (by simp)
+      · exact h
+  · intro h
+    have hget : ∀ i ∈ idx, ∃ a, xs[i]? = some a := fun i hi =>
+      ⟨xs[i]'(h.valid i hi), List.getElem?_eq_getElem (h.valid i hi)⟩
+    simp only [List.all_eq_true, List.any_eq_true, decide_eq_true_eq, Bool.or_eq_true,
+      beq_iff_eq]
+    refine ⟨⟨⟨⟨h.valid, h.incr⟩, ?_⟩, ?_⟩, ?_⟩
+    · intro i hi j hj
+      obtain ⟨a, ha⟩ := hget i hi
+      obtain ⟨b, hb⟩ := hget j hj
+      rw [ha, hb]
+      by_cases hij : i = j
+      · exact Or.inl hij
+      · right; simp [h.anti i hi j hj hij a b ha hb]
+    · intro x hx
+      obtain ⟨i, hi, a, ha, hd⟩ := h.cover x hx
+      exact ⟨i, hi, by rw [ha]; exact hd⟩
+    · intro i hi x hx
+      obtain ⟨a, ha⟩ := hget i hi
+      rw [ha]
+      simp only [Bool.or_eq_true, Bool.not_eq_true']
+      cases hxa : dom x a with
+      | false => exact Or.inl rfl
+      | true => exact Or.inr (h.maximal i hi a ha x hx hxa)
+
+/-- `fast` returns a sublist of `0, 1, …, n-1` -/
+theorem fast_sublist_range (dom : α → α → Bool) (xs : List α) :
+    (fast dom xs).Sublist (List.range xs.length) := by
+  unfold fast
+  rw [← indexed_map_fst]
+  exact (by simpa using loop_sublist dom [] (indexed xs) :
+    (loop dom [] (indexed xs)).Sublist (indexed xs)).map _
+
+theorem fast_isParetoIdx_on (dom : α → α → Bool) (xs : List α) (h : PreorderOn dom xs) :
+    IsParetoIdx dom xs (fast dom xs) := by
+  obtain ⟨hsub, hanti, hcov, hmax⟩ := fast_pairs_on dom xs h
+  have hmem : ∀ i ∈ fast dom xs, ∃ e ∈ loop dom [] (indexed xs), e.1 = i := by
+    intro i hi
+    simpa [fast] using hi
+  have hR : ∀ e ∈ loop dom [] (indexed xs), xs[e.1]? = some e.2 :=
+    fun e he => mem_indexed.mp (hsub.subset he)
+  refine ⟨?_, ?_, ?_, ?_, ?_⟩
+  · intro i hi
+    exact List.mem_range.mp ((fast_sublist_range dom xs).subset hi)
+  · exact List.Pairwise.sublist (fast_sublist_range dom xs) List.pairwise_lt_range
+  · intro i hi j hj hne a b ha hb
+    obtain ⟨e, he, rfl⟩ := hmem i hi
+    obtain ⟨f, hf, rfl⟩ := hmem j hj
+    have h1 := hR e he
+    have h2 := hR f hf
+    rw [ha] at h1; rw [hb] at h2
+    have := hanti e he f hf (fun hef => hne (by rw [hef]))
+    rw [← Option.some.inj h1, ← Option.some.inj h2] at this
+    exact this
+  · intro x hx
+    obtain ⟨f, hf, hfx⟩ := hcov x hx
+    exact ⟨f.1, by simp only [fast, List.mem_map]; exact ⟨f, hf, rfl⟩, f.2, hR f hf, hfx⟩
+  · intro i hi a ha x hx hxa
+    obtain ⟨e, he, rfl⟩ := hmem i hi
+    have h1 := hR e he
+    rw [ha] at h1
+    have h2 : a = e.2 := Option.some.inj h1
+    rw [h2] at hxa ⊢
+    exact hmax e he x hx hxa
+
+/-! ### the naive routine -/
+
+theorem mem_naive_iff (eqv dom : α → α → Bool) (xs : List α) (i : Nat) :
+    i ∈ naive eqv dom xs ↔
+      ∃ a, xs[i]? = some a ∧ ∀ o ∈ xs, eqv a o = false → dom o a = false := by
+  unfold naive
+  simp only [List.mem_map, List.mem_filter, Bool.not_eq_true', List.any_eq_false,
+    Bool.and_eq_true, Bool.not_eq_true', not_and, Bool.not_eq_true]
+  constructor
+  · rintro ⟨e, ⟨he, hk⟩, rfl⟩
+    exact ⟨e.2, mem_indexed.mp he, hk⟩
+  · rintro ⟨a, ha, hk⟩
+    exact ⟨(i, a), ⟨mem_indexed.mpr ha, hk⟩, rfl⟩
+
+theorem naive_sublist_range (eqv dom : α → α → Bool) (xs : List α) :
+    (naive eqv dom xs).Sublist (List.range xs.length) := by
+  unfold naive
+  rw [← indexed_map_fst]
+  exact List.filter_sublist.map _
+
+theorem naiveSpecOk_naive (eqv dom : α → α → Bool) (xs : List α) :
+    naiveSpecOk eqv dom xs (naive eqv dom xs) = true := by
+  unfold naiveSpecOk
+  simp only [Bool.and_eq_true, zipTail_all_iff]
+  refine ⟨⟨?_, ?_⟩, ?_⟩
+  · simp only [List.all_eq_true, decide_eq_true_eq]
+    intro i hi
+    exact List.mem_range.mp ((naive_sublist_range eqv dom xs).subset hi)
+  · exact List.Pairwise.sublist (naive_sublist_range eqv dom xs) List.pairwise_lt_range
+  · simp only [List.all_eq_true, List.mem_range]
+    intro i hi
+    rw [List.getElem?_eq_getElem hi]
+    simp only [beq_iff_eq]
+    rw [Bool.eq_iff_iff, List.contains_iff_mem, mem_naive_iff]
+    simp only [List.getElem?_eq_getElem hi, Option.some.injEq, exists_eq_left', Bool.not_eq_true',
+      List.any_eq_false, Bool.and_eq_true, not_and, Bool.not_eq_true]
+
+/-! ### naive routine with `eqv` = equality, for a partial order on the members of `xs` -/
+
+/-- every pair kept by the fast loop is kept by the naive routine -/
+theorem fast_pair_mem_naive_on (eqv dom : α → α → Bool) (xs : List α)
+    (heqv : ∀ a b, eqv a b = true ↔ a = b) (h : PreorderOn dom xs) (hanti : AntisymmOn dom xs)
+    (e : Nat × α) (he : e ∈ loop dom [] (indexed xs)) : e.1 ∈ naive eqv dom xs := by
+  obtain ⟨hsub, _, _, hmax⟩ := fast_pairs_on dom xs h
+  have hei := hsub.subset he
+  rw [mem_naive_iff]
+  refine ⟨e.2, mem_indexed.mp hei, ?_⟩
+  intro o ho hne
+  cases hd : dom o e.2 with
+  | false => rfl
+  | true =>
+    have h2 := hmax e he o ho hd
+    have := hanti o ho e.2 (snd_mem_of_mem_indexed hei) hd h2
+    rw [this, (heqv e.2 e.2).mpr rfl] at hne
+    exact absurd hne (by simp)
+
+theorem naive_cover_on (eqv dom : α → α → Bool) (xs : List α)
+    (heqv : ∀ a b, eqv a b = true ↔ a = b) (h : PreorderOn dom xs) (hanti : AntisymmOn dom xs) :
+    ∀ x ∈ xs, ∃ i ∈ naive eqv dom xs, ∃ a, xs[i]? = some a ∧ dom a x = true := by
+  obtain ⟨hsub, _, hcov, _⟩ := fast_pairs_on dom xs h
+  intro x hx
+  obtain ⟨f, hf, hfx⟩ := hcov x hx
+  exact ⟨f.1, fast_pair_mem_naive_on eqv dom xs heqv h hanti f hf, f.2,
+    mem_indexed.mp (hsub.subset hf), hfx⟩
+
+theorem naive_values_eq_fast_on (eqv dom : α → α → Bool) (xs : List α)
+    (heqv : ∀ a b, eqv a b = true ↔ a = b) (h : PreorderOn dom xs) (hanti : AntisymmOn dom xs)
+    (v : α) :
+    (∃ i ∈ naive eqv dom xs, xs[i]? = some v) ↔ (∃ i ∈ fast dom xs, xs[i]? = some v) := by
+  obtain ⟨hsub, _, hcov, _⟩ := fast_pairs_on dom xs h
+  constructor
+  · rintro ⟨i, hi, hv⟩
+    rw [mem_naive_iff] at hi
+    obtain ⟨a, ha, hk⟩ := hi
+    rw [hv] at ha
+    have hav : v = a := Option.some.inj ha
+    subst hav
+    obtain ⟨f, hf, hfv⟩ := hcov v (List.mem_of_getElem? hv)
+    have hfi := hsub.subset hf
+    by_cases hfe : v = f.2
+    · refine ⟨f.1, ?_, ?_⟩
+      · simp only [fast, List.mem_map]; exact ⟨f, hf, rfl⟩
+      · rw [hfe]; exact mem_indexed.mp hfi
+    · have h1 : eqv v f.2 = false := by
+        cases hq : eqv v f.2 with
+        | false => rfl
+        | true => exact absurd ((heqv _ _).mp hq) hfe
+      have := hk f.2 (snd_mem_of_mem_indexed hfi) h1
+      rw [this] at hfv
+      exact absurd hfv (by simp)
+  · rintro ⟨i, hi, hv⟩
+    simp only [fast, List.mem_map] at hi
+    obtain ⟨e, he, rfl⟩ := hi
+    exact ⟨e.1, fast_pair_mem_naive_on eqv dom xs heqv h hanti e he, hv⟩
 
 end VOPy.Pareto
